@@ -27,18 +27,18 @@ pub fn def_c02() -> PropDef {
         run: |ctx| {
             // (1) uninterrupted sequential runs (instances/configurations of C01)
             let known = ctx.known.clone();
-            let cases = ctx.tier.pick(20_000, 500_000);
+            let cases = ctx.tier.pick(60_000, 600_000);
             let strat = solve_case_strategy(GenParams::default_small(), ConfigGen { max_width: 4, ..Default::default() });
             ctx.pt_run("seq-uninterrupted", cases, strat, |c| serde_json::to_value(c).unwrap(), |c, obs| crate::props::c01::eval(c, obs, &known, "C02"));
             // (2) every cutoff point of the sequential solver
-            let cases = ctx.tier.pick(400, 8_000);
+            let cases = ctx.tier.pick(1_500, 10_000);
             let max_k = ctx.tier.pick(300, 3_000);
             let strat = solve_case_strategy(GenParams::default_small(), ConfigGen { max_width: 3, ..Default::default() });
             ctx.pt_run("seq-every-poll", cases, strat, |c| serde_json::to_value(c).unwrap(), |c, obs| eval_cutoffs(c, obs, "C02", max_k));
             // (3) parallel solver under owned schedules, with and without cutoff
             let (rc, sb, bound, mr) = match ctx.tier {
-                Tier::Quick => (600, 4, 1, 800),
-                Tier::Thorough => (15_000, 30, 2, 40_000),
+                Tier::Quick => (3_000, 6, 1, 800),
+                Tier::Thorough => (20_000, 30, 2, 40_000),
             };
             par::run_prop(ctx, "C02", par::ParGen { cutoff: true, ..Default::default() }, rc, sb, bound, mr);
         },
@@ -134,12 +134,12 @@ pub fn def_c09() -> PropDef {
     PropDef {
         id: "C09",
         run: |ctx| {
-            let cases = ctx.tier.pick(12_000, 300_000);
+            let cases = ctx.tier.pick(40_000, 400_000);
             let strat = solve_case_strategy(reconvergent(), ConfigGen { max_width: 3, ..Default::default() });
             ctx.pt_run("seq-cache-vs-nocache", cases, strat, |c| serde_json::to_value(c).unwrap(), eval_c09);
             let (rc, sb, bound, mr) = match ctx.tier {
-                Tier::Quick => (700, 4, 1, 800),
-                Tier::Thorough => (20_000, 30, 2, 40_000),
+                Tier::Quick => (3_000, 6, 1, 800),
+                Tier::Thorough => (25_000, 30, 2, 40_000),
             };
             par::run_prop(ctx, "C09", par::ParGen { cache_simple_only: true, ..Default::default() }, rc, sb, bound, mr);
         },
@@ -284,9 +284,9 @@ fn run_proto(ctx: &mut Ctx, check_width: bool) {
     if check_width {
         p.allow_irrelevance = false;
     }
-    let cases = ctx.tier.pick(6_000, 150_000);
+    let cases = ctx.tier.pick(20_000, 200_000);
     ctx.pt_run("solver-runs", cases, proto_strategy(p.clone(), 5), |c| serde_json::to_value(c).unwrap(), |c, obs| eval_proto_solver(c, obs, check_width));
-    let cases = ctx.tier.pick(12_000, 300_000);
+    let cases = ctx.tier.pick(40_000, 400_000);
     let types = vec![CType::Exact, CType::Restricted, CType::Relaxed];
     ctx.pt_run("direct-compilations", cases, dd_case_strategy(p, types, vec![DdKind::Lel, DdKind::Frontier, DdKind::Pooled]), |c| serde_json::to_value(c).unwrap(), |c, obs| eval_proto_dd(c, obs, check_width));
 }
@@ -478,12 +478,12 @@ pub fn def_c14() -> PropDef {
     PropDef {
         id: "C14",
         run: |ctx| {
-            let cases = ctx.tier.pick(15_000, 400_000);
+            let cases = ctx.tier.pick(50_000, 500_000);
             let strat = (solve_case_strategy(GenParams::default_small(), ConfigGen { max_width: 3, ..Default::default() }), prop_oneof![3 => Just(0isize), 3 => Just(1isize), 2 => 2isize..=6], 0usize..64, prop::option::of((0isize..=6, 0usize..64)))
                 .prop_map(|(solve, offset, idx, second)| PrimalCase { solve, offset, idx, second });
             ctx.pt_run("seq-warm-start", cases, strat, |c| serde_json::to_value(c).unwrap(), eval_c14);
             let (rc, sb, bound, mr) = match ctx.tier {
-                Tier::Quick => (600, 3, 1, 600),
+                Tier::Quick => (2_500, 4, 1, 600),
                 Tier::Thorough => (15_000, 20, 2, 30_000),
             };
             par::run_prop(ctx, "C14", par::ParGen { primal: true, ..Default::default() }, rc, sb, bound, mr);
